@@ -318,10 +318,63 @@ def check_simulation(case, nt):
         lg.setLevel(old_level)
 
 
+def _history_model(variant):
+    """Two models that share every rate function and argument name but define a derived quantity differently."""
+    from mxlpy import Model, fns
+
+    m = Model()
+    m.add_variables({"x1": 1.0, "x2": 0.5}).add_parameters({"kin": 2.0, "k1": 1.5, "k2": 0.75, "tot": 4.0})
+    if variant == "A":
+        m.add_derived("d1", fns.add, args=["k1", "k2"])
+        m.add_derived("free", fns.moiety_1s, args=["x2", "tot"])
+    else:
+        m.add_derived("d1", fns.mul, args=["k1", "x2"])
+        m.add_derived("free", fns.mul, args=["tot", "x1"])
+    m.add_reaction("v0", fns.constant, args=["kin"], stoichiometry={"x1": 1})
+    m.add_reaction("v1", fns.mass_action_1s, args=["x1", "d1"], stoichiometry={"x1": -1, "x2": 1})
+    m.add_reaction("v2", fns.mass_action_2s, args=["x2", "free", "k2"], stoichiometry={"x2": -1})
+    return m
+
+
+def check_history(case):
+    """Several conversions in ONE process: each must describe the model it was given."""
+    import sympy
+    from mxlpy import fns, to_symbolic_model
+
+    txt = f"{case}"
+    current = None
+    for i, step in enumerate(case["steps"]):
+        if step in ("A", "B"):
+            current = _history_model(step)
+        elif step == "edit":
+            current.update_derived("d1", fns.mul, args=["k2", "x1"])
+        sm = to_symbolic_model(current)
+        names = current.get_variable_names()
+        for st in STATES[:3]:
+            state = dict(zip(names, st[: len(names)], strict=True))
+            rhs = current.get_right_hand_side(state, 0.5)
+            subs = {sympy.Symbol(k): v for k, v in {**sm.parameter_values, **state, "time": 0.5}.items()}
+            for v, eq in zip(names, sm.eqs, strict=True):
+                val = float(sympy.N(eq.subs(subs)))
+                if not _close(val, float(rhs[v]), 1e-9):
+                    return outcome(False, "equations-differ", symptom="equations-differ:after-earlier-conversion", nontrivial=True,
+                                   detail=f"after conversions {case['steps'][: i + 1]}: d{v}/dt symbolic {val} numeric {float(rhs[v])} at {state} | {txt}")
+            jac = sm.jacobian()
+            Jn = _numeric_jacobian(current, names, st[: len(names)], 0.5)
+            for a in range(len(names)):
+                for b in range(len(names)):
+                    if not _close(float(sympy.N(jac[a, b].subs(subs))), float(Jn[a, b]), 2e-6):
+                        return outcome(False, "jacobian-differs", symptom="jacobian-differs:after-earlier-conversion", nontrivial=True,
+                                       detail=f"after conversions {case['steps'][: i + 1]}: J[{a},{b}] differs | {txt}")
+    return outcome(True, "converted-equal", nontrivial=True)
+
+
 def check(case):
     import logging
 
     logging.getLogger("mxlpy.meta").setLevel(logging.CRITICAL)
+    if case.get("mode") == "history":
+        return check_history(case)
     nt = bool(case["dorder"]) or case["coef"] != "num" or any(case[k] for k in ("untouched", "time", "ia", "ratedep"))
     if case["mode"] == "symbolic":
         return check_symbolic(case, nt)
@@ -333,8 +386,10 @@ PREDICATES = {}
 
 def run(ctx):
     cases = generate(ctx.tier)
-    sym = [c for c in cases if c["mode"] == "symbolic"]
-    sim = [c for c in cases if c["mode"] != "symbolic"]
+    for steps in (["A", "B"], ["B", "A"], ["A", "edit"], ["B", "A", "B"], ["A", "A", "edit", "B"]):
+        cases.append({"mode": "history", "steps": steps})
+    sym = [c for c in cases if c["mode"] in ("symbolic", "history")]
+    sim = [c for c in cases if c["mode"].startswith("simulate")]
     ctx.note(f"{len(sym)} symbolic cases, {len(sim)} simulations with Jacobian")
     ctx.evaluate(sym, timeout=300)
     if ctx.failures:
